@@ -17,10 +17,11 @@ PRIMS = ("bool", "int", "float", "str", "bytearray")
 
 TYPE_WORDS = ["Foo", "Bar", "Baz", "Qux", "Quux", "Corge", "Grault", "Garply", "Waldo",
               "Fred", "Plugh", "Xyzzy", "Thud", "Wibble", "Wobble", "Flob"]
-TYPE_SUFFIXES = ["", "_item", "_URL", "_ID_short", "_2", "_kind", "_IEC_61360", "_thing_A"]
+TYPE_SUFFIXES = ["", "_item", "_URL", "_ID_short", "_2", "_kind", "_IEC_61360", "_thing_A",
+                 "_with_a_rather_long_descriptive_name_XML_serializable"]
 PROP_WORDS = ["foo", "bar", "baz", "qux", "quux", "corge", "grault", "garply", "waldo",
               "fred", "plugh", "xyzzy", "thud", "wibble", "wobble", "flob"]
-PROP_SUFFIXES = ["", "_value", "_ID", "_URLs", "_1", "_short_name", "_x"]
+PROP_SUFFIXES = ["", "_value", "_ID", "_URLs", "_1", "_short_name", "_x", "_of_the_supplemental_semantic_identifiers_list"]
 
 
 # ---------------------------------------------------------------------------
@@ -519,6 +520,7 @@ class Opts:
     max_consts: int = 3
     max_literals: int = 4
     defaults: bool = False  # non-optional primitive/enum properties may get a constructor default
+    compatible_patterns: float = 0.0  # probability that all patterns come from a jointly satisfiable family
     guard_other: float = 0.0  # schema invariants: probability of a None-guard on a *different* property (near-miss)
 
 
@@ -543,6 +545,8 @@ PATTERN_EXAMPLES = {
     "^[\\U00010000-\\U0010FFFF]?[a-c]$": ["a", "\U0001F600b", "c"],
 }
 PATTERN_POOL = list(PATTERN_EXAMPLES)
+# all of these accept "c", "ac" and "abc"
+COMPATIBLE_PATTERNS = ["^[a-z]+$", "^[a-zA-Z_][a-zA-Z0-9_]{0,5}$", "^[\\x20-\\x7e]*$", "^a?b*c+$", "^[^x]{1,3}$"]
 
 DESC_WORDS = ["value", "must", "be", "the", "a", "an", "shall", "not", "empty", "item",
               "of", "list", "with", "at", "least", "one", "element", "Constraint", "AASd-1:",
@@ -639,9 +643,14 @@ def specs(draw: Any, opts: Opts = Opts()) -> Spec:
 
     # ---- pattern verification functions ----
     if opts.fns:
-        n_fns = draw(st.integers(0, 3))
+        family = opts.compatible_patterns > 0 and draw(st.floats(0, 1)) < opts.compatible_patterns
+        n_fns = draw(st.integers(2, 4)) if family else draw(st.integers(0, 3))
+        fam_pats = draw(st.permutations(COMPATIBLE_PATTERNS)) if family else []
         for i, nm in enumerate(_names(draw, ["matches_" + w for w in PROP_WORDS], ["", "_x"], n_fns, taken)):
-            pat = draw(opts.patterns if opts.patterns is not None else st.sampled_from(PATTERN_POOL))
+            if family:
+                pat = fam_pats[i % len(fam_pats)]
+            else:
+                pat = draw(opts.patterns if opts.patterns is not None else st.sampled_from(PATTERN_POOL))
             style = draw(st.integers(0, 2))
             if style == 0:
                 plines = [f"pattern = {pystr_regex(pat)}"]
@@ -657,7 +666,7 @@ def specs(draw: Any, opts: Opts = Opts()) -> Spec:
     # ---- constrained primitives (DAG per primitive) ----
     n_cps = draw(st.integers(0, opts.max_cps))
     prims_for_cp = [p for p in PRIMS if (p != "float" or opts.float_props) and (p != "bytearray" or opts.bytes_props)]
-    for nm in _names(draw, TYPE_WORDS, ["_str", "_code", "_text", "_num"], n_cps, taken):
+    for nm in _names(draw, TYPE_WORDS, ["_str", "_code", "_text", "_num", "_non_empty_XML_serializable_text_value"], n_cps, taken):
         prim = draw(st.sampled_from(prims_for_cp + ["str", "str"]))
         same = [c for c in spec.cps if c.prim == prim]
         bases = []  # type: List[str]
